@@ -546,8 +546,13 @@ static void checker_cell(const pk_t *p, const jwk_item_t *item, jwt_alg_t A, int
 		setrc = jwt_checker_setkey(c, A, item);
 	else if (route == RT_CB_ALG)
 		setrc = jwt_checker_setkey(c, JWT_ALG_NONE, item);
-	if (route != RT_SETKEY && route != RT_SETKEY_TWICE)
+	if (route != RT_SETKEY && route != RT_SETKEY_TWICE) {
 		jwt_checker_setcb(c, route_cb, &ctx);
+		/* in every second case the context is then handed over once more on its own -- setcb(obj, NULL, ctx) is the documented way to
+		 * update the context only; the callback stays */
+		if (vf_case_index() & 1)
+			jwt_checker_setcb(c, NULL, &ctx);
+	}
 	eff_t e = effective(route, A, item != NULL, keyalg, 1, 0);
 	if (e.use_first) {
 		p = &FIRSTPK;
@@ -626,8 +631,11 @@ static void builder_cell(const pk_t *p, const jwk_item_t *item, jwt_alg_t A, int
 		jwt_builder_setkey(b, A, item);
 	else if (route == RT_CB_ALG)
 		jwt_builder_setkey(b, JWT_ALG_NONE, item);
-	if (route != RT_SETKEY && route != RT_SETKEY_TWICE)
+	if (route != RT_SETKEY && route != RT_SETKEY_TWICE) {
 		jwt_builder_setcb(b, route_cb, &ctx);
+		if (vf_case_index() & 1)
+			jwt_builder_setcb(b, NULL, &ctx);
+	}
 	eff_t e = effective(route, A, item != NULL, keyalg, priv, 1);
 	if (e.use_first) {
 		p = &FIRSTPK;
